@@ -5,7 +5,7 @@ tier=${1:-quick}; shift
 ids=${@:-C01 C02 C03 C04 C05 C06 C07 C08 C09 C10 C11 C12 C13 C14 C15 C16 C17 C18 C19 C20}
 cd "$(dirname "$0")/.."
 d=/var/tmp/pygyro-verif-cov; rm -rf $d; mkdir -p $d
-for id in $ids; do VERIF_COVER=$d COVERAGE_CORE=sysmon ./run_check.py $id --tier $tier 2>&1 | tail -1; done
+for id in $ids; do VERIF_COVER=$d VERIF_COVER_BRANCH=${VERIF_COVER_BRANCH:-} COVERAGE_CORE=${COVERAGE_CORE:-sysmon} ./run_check.py $id --tier $tier 2>&1 | tail -1; done
 git checkout -- evidence 2>/dev/null
 cd $d && /venv/bin/python -m coverage combine --data-file=$d/all $d/cov.* >/dev/null 2>&1
 /venv/bin/python -m coverage report --data-file=$d/all --include='/repo/pygyro/*,/repo/fullSimulation.py' --omit='*/tests/*,*/pythran_*,*/numba_*' -m > $d/report.txt 2>&1
